@@ -159,9 +159,10 @@ theorem wfNode_call (a b : Nat) :
 theorem wfNode_other (lens : List (String × Nat)) : wfNode "IfClause" lens = true := by
   simp [wfNode, wfReq]
 
-/-- The tree `RecoverErrors(1)` returns for `case n in (` holds a CaseItem without patterns
-    (harness finding C06-recover-caseitem-no-patterns): it is ill-formed, which is why
-    `CaseItem.Pos()` — one of the unguarded sites above — panics on it. -/
+/-- Before 637e874 the tree `RecoverErrors(1)` returned for `case n in (` held a CaseItem without
+    patterns (finding C06-recover-caseitem-no-patterns, fixed): such a node is ill-formed, which is
+    why `CaseItem.Pos()` — one of the unguarded sites above — panicked on it.  The harness checks
+    on every returned tree that no such node occurs. -/
 theorem recovered_caseitem_ill_formed :
     wfNode "CaseItem" [("Comments", 0), ("Patterns", 0), ("Stmts", 0), ("Last", 0)] = false := by
   decide
